@@ -166,7 +166,10 @@ where
 #[cfg(all(feature = "idl", not(target_os = "solana")))]
 mod idl_impl {
     use crate::idl::AccountSetToIdl;
-    use star_frame_idl::{account_set::IdlAccountSetDef, IdlDefinition};
+    use star_frame_idl::{
+        account_set::{IdlAccountSetDef, IdlSingleAccountSet},
+        IdlDefinition,
+    };
 
     impl<A, Arg> AccountSetToIdl<Arg> for Option<A>
     where
@@ -181,9 +184,14 @@ mod idl_impl {
                 inner.optional = true;
                 return Ok(set);
             }
+            // `None` is passed as a single account holding the program id (see `decode_accounts` and
+            // `extend_account_metas` above), not as no account at all.
             Ok(IdlAccountSetDef::Or(vec![
                 set,
-                IdlAccountSetDef::empty_struct(),
+                IdlAccountSetDef::Single(IdlSingleAccountSet {
+                    address: Some(idl_definition.address),
+                    ..Default::default()
+                }),
             ]))
         }
     }
